@@ -14,9 +14,9 @@ RULE = ("(schema, operation, variables) triples: input type graphs (built-in and
         "malformed stream of type-unrelated JSON.  A case is distinct by the hash of its line and non-trivial when a "
         "mutation was applied or some variable value nests at least two levels deep.")
 
+# int-accepts-non-int32 and id-accepts-non-integer-number are repaired in /repo (KNOWN_FINDINGS "fixed:"): they are
+# no longer accepted as known, their corpus witnesses stay as regression cases (rejected now)
 KEYS = {
-    "int-accepts-non-int32": lambda c: "(num " in c and '"Int"' in c,
-    "id-accepts-non-integer-number": lambda c: re.search(r'\(num "[^"]*[.eE]', c) is not None and '"ID"' in c,
     "upload-exempt-from-non-null": lambda c: '"Upload"' in c,
     "unknown-field-echo": lambda c: "unknown_field" in c,
 }
@@ -71,7 +71,7 @@ def run(chk):
         "harness/cmd/c06: SDL / operation / JSON printers and the S-expression dump share one data structure; the message "
         "classifier is a list of regular expressions over the 11 templates of variablesvalidation.go",
         "specification readings: Int = JSON number token without fraction/exponent within 32 bits; Float = any JSON number; "
-        "ID = string or integer token; a default value in the operation / schema is assumed valid for its type",
+        "ID = string or integer token (of any size); a default value in the operation / schema is assumed valid for its type",
     ]
     chk.proof_side()
     ok, log = vlib.build_model("C06")
